@@ -287,6 +287,25 @@ seed("C14", "short-read-ignored", "short frame read ignored", ["C14.M2"],
 seed("C14", "marker-mid-loop", "marker also written inside the frame loop on service reset", ["C14.M6", "C14.M1"],
      (LD, '\t\t\tlog.Println("reset triggered through service")\n', '\t\t\tlog.Println("reset triggered through service")\n\t\t\tconn.Write([]byte(clearBuffer))\n'))
 
+BO = "cmd/thermal-recorder/boson.go"
+# ---- C13 (parsers / handler)
+seed("C13", "boson-edge-strict", "Boson: last border row/column counted as interior", ["C13.B1"],
+     (BO, "y >= (len(out.Pix)-edgePixels)", "y > (len(out.Pix)-edgePixels)"))
+seed("C13", "boson-big-endian", "Boson frames decoded big-endian", ["C13.B1"],
+     (BO, "binary.LittleEndian.Uint16(raw[i : i+2])", "binary.BigEndian.Uint16(raw[i : i+2])"))
+seed("C13", "boson-zero-ignored-in-first-rows", "Boson: zero pixels tolerated in the upper half", ["C13.B1"],
+     (BO, "if !onEdge && out.Pix[y][x] == 0 {", "if !onEdge && y > len(out.Pix)/2 && out.Pix[y][x] == 0 {"))
+seed("C13", "boson-cursor-per-row", "Boson: byte cursor restarted for every row", ["C13.B1"],
+     (BO, "\tfor y, row := range out.Pix {\n", "\tfor y, row := range out.Pix {\n\t\ti = 0\n"))
+seed("C13", "boson-generic-error", "Boson: bad pixel reported as a plain error", ["C13.B1"],
+     (BO, "\t\t\t\treturn &lepton3.BadFrameErr{Cause: err}", "\t\t\t\t_ = &lepton3.BadFrameErr{Cause: err}\n\t\t\t\treturn err"))
+seed("C13", "handler-returns-on-badframe", "connection dropped on a bad frame", ["C13.B4"],
+     (MAIN, "\t\t\tleptondController.RestartCamera()\n", "\t\t\tleptondController.RestartCamera()\n\t\t\treturn err\n"))
+seed("C13", "handler-no-restart", "bad frame does not trigger a camera restart", ["C13.B4"],
+     (MAIN, "\t\t\tleptondController.RestartCamera()\n", ""))
+seed("C13", "parse-into-oldest", "raw frame parsed into the oldest ring slot", ["C13.B3"],
+     (MP, "\tframe := mp.frameLoop.Current()\n\tif err := mp.parseFrame(rawFrame, frame, mp.motionDetector.start); err != nil {", "\tframe := mp.frameLoop.Oldest()\n\tif err := mp.parseFrame(rawFrame, frame, mp.motionDetector.start); err != nil {"))
+
 here = os.path.dirname(os.path.abspath(__file__))
 for pid, name, d in S:
     os.makedirs(os.path.join(here, pid), exist_ok=True)
